@@ -195,6 +195,7 @@ fn corpus(tier: Tier) -> Vec<(String, Vec<u8>)> {
                 streams: vec![("s1".into(), vec![1, 2, 3]), ("Big".into(), vec![7u8; 5000])],
                 summary: default_summary(),
                 extra_pool_strings: vec![],
+                ghost_strings: vec![],
             };
             out.push((format!("independently encoded: {}", label), encode(&db)));
         }
